@@ -172,6 +172,8 @@ class CppEmitter:
             L.append(f'    std::printf(" has_fixed_port_id=%d is_service=%d", static_cast<int>({n}::_traits_::HasFixedPortID), static_cast<int>({n}::_traits_::IsServiceType));')
             if t.has_fixed_port_id and not t.has_parent_service:
                 L.append(f'    std::printf(" fixed_port_id=%llu", static_cast<unsigned long long>({n}::_traits_::FixedPortId));')
+            if isinstance(t, pydsdl.UnionType):
+                L.append(f'    std::printf(" union_option_count=%zu", static_cast<std::size_t>({n}::VariantType::MAX_INDEX));')
             for c in t.constants:
                 dt = c.data_type
                 if isinstance(dt, pydsdl.BooleanType):
